@@ -160,6 +160,8 @@ def gen_scenario(seed: int, profile: Optional[dict] = None) -> dict:
                 continue            # envelope (iv)
             if src_pers:
                 c["init"] = f"init:{a['sid']}.{se}.{sa}"   # envelope (ii)
+        if kind == "plain" and forward and a is not b and rng.random() < prof.get("p_async", 0.06):
+            c["async"] = True       # async_requests=True on a plain forward connection (ordering only)
         used_slots.add(slot)
         conns.append(c)
     scn: Dict[str, Any] = {"until": until, "sims": sims, "conns": conns}
